@@ -1,7 +1,7 @@
 (* C07 -- pretty-printed EXPRESS is valid, equivalent to its source and stable: the
    parenthesisation rule of expressions.  Only statements closed by [exact]. *)
 From Coq Require Import List NArith Bool.
-From SC Require Import gen.PPRule ExpPP ExpPP_Proofs ExpParse ExpParse_Proofs.
+From SC Require Import gen.PPRule ExpPP ExpPP_Proofs ExpParse ExpParse_Proofs gen.StrSplit ExpStr ExpStr_Proofs.
 Import ListNotations.
 
 (* What exppp prints for an expression is a function of the tree with nests of one chain
@@ -57,3 +57,36 @@ Example c07_example :
   print_top (Bin 17 a (Bin 26 (Bin 23 b (Bin 23 c d)) (Atom [101%N]))) =
   [TAtom [97%N]; TOp 17; TLP; TLP; TAtom [98%N]; TOp 23; TAtom [99%N]; TOp 23; TAtom [100%N]; TRP; TOp 26; TAtom [101%N]; TRP]%N.
 Proof. vm_compute. reflexivity. Qed.
+
+(* Long string literals (exppp.c breakLongStr, BREAK_CHAR / QUOTE_CHAR regenerated from it).  Whatever the
+   layout decides (ds: for every piece after the first, whether the literal is closed and a new one opened
+   on the next line), the literals printed are well-formed literal bodies (apostrophes in pairs: no cut falls
+   inside a pair) and the concatenation of the values they denote is the source string; the text between the
+   quotes, concatenated, is the source text with its apostrophes doubled.  "The splitting of long string
+   literals" of the property changes nothing but where the quotes and "+" stand. *)
+Theorem c07_split_string_denotes_source : forall s ds,
+  exists vs, map undbl (literals s ds) = map Some vs /\ concat vs = s.
+Proof. exact split_denotes_source. Qed.
+Print Assumptions c07_split_string_denotes_source.
+
+Theorem c07_split_string_keeps_text : forall s ds, concat (literals s ds) = dbl s.
+Proof. exact split_keeps_text. Qed.
+Print Assumptions c07_split_string_keeps_text.
+
+(* the loop of the C code (nextBreakpoint / iptr += i) computes the structural pieces the proofs use *)
+Theorem c07_string_loop_computes_pieces : forall s, pieces_c s = chunks s.
+Proof. exact pieces_c_chunks. Qed.
+Print Assumptions c07_string_loop_computes_pieces.
+
+(* the check's oracle for real output: a list of literals it accepts is one the model can print *)
+Theorem c07_explained_literals_are_model_output : forall s lits,
+  explained s lits = true -> exists ds, literals s ds = lits.
+Proof. exact explained_sound. Qed.
+Print Assumptions c07_explained_literals_are_model_output.
+
+(* non-vacuity: it's a.b cut after the dot *)
+Example c07_split_example :
+  literals [105; 116; 39; 115; 32; 97; 46; 98]%N [true] = [[105; 116; 39; 39; 115; 32; 97; 46]; [98]]%N /\
+  explained [105; 116; 39; 115; 32; 97; 46; 98]%N [[105; 116; 39; 39; 115; 32; 97; 46]; [98]]%N = true /\
+  explained [105; 116; 39; 115; 32; 97; 46; 98]%N [[105; 116; 39]; [39; 115; 32; 97; 46; 98]]%N = false.
+Proof. vm_compute. repeat split. Qed.
